@@ -411,8 +411,88 @@ def ops : List (String × String × Fn) := [
   op "c01.leak.gcd" "dhh" (fun
     | [n, a, b] =>
       s!"{hx (ugcd n (sec n a) (sec n b)).val} ;; {natToHex (Nat.gcd a b)}"
+    | _ => bad),
+  -- ---- special-modulus forms, mul_mod, div_by_2, rem_limb, mac_by_limb, Montgomery parameters
+  op "c01.leak.special" "dhhh" (fun      -- modulus 2^BITS − c, c ≠ 0, operands below it
+    | [n, a, b, c] =>
+      let x := sec n a; let y := sec n b; let sc := Sec.ofNat c; let p := B ^ n - c
+      s!"{hx (addModSpecial n x y sc).val} {hx (subModSpecial n x y sc).val} {hx (mulModSpecial n x y sc).val} ;; {natToHex ((a + b) % p)} {natToHex ((a + p - b) % p)} {natToHex (a * b % p)}"
+    | _ => bad),
+  op "c01.leak.mul_mod" "dhhh" (fun      -- p odd, a < p
+    | [n, a, b, p] =>
+      let x := sec n a; let y := sec n b; let q := sec n p
+      s!"{hx (mulMod n x y q).val} {hx (doubleMod n x q).val} ;; {natToHex (a * b % p)} {natToHex (2 * a % p)}"
+    | _ => bad),
+  op "c01.leak.mul_mod_vartime" "dhhh" (fun   -- p non-zero: `mul_mod_vartime` and the `MulMod` trait form
+    | [n, a, b, p] =>
+      let r := hx (mulModVartime n (sec n a) (sec n b) (sec n p)).val
+      s!"{r} {r} ;; {natToHex (a * b % p)} {natToHex (a * b % p)}"
+    | _ => bad),
+  op "c01.leak.rem_limb" "dhh" (fun
+    | [n, a, d] => s!"{wd (remLimb n (sec n a) (Sec.ofNat d)).val} ;; {natToHex (a % d)}"
+    | _ => bad),
+  op "c01.hook.mac_by_limb" "dhhhh" (fun
+    | [n, a, b, c, d] => let r := (macByLimb n (sec n a) (sec n b) (Sec.ofNat c) (Sec.ofNat d)).val
+      s!"{hx r.1} {wd r.2} ;; {natToHex ((a + b * c + d) % B ^ n)} {natToHex ((a + b * c + d) / B ^ n)}"
+    | _ => bad),
+  op "c01.leak.monty_params" "dh" (fun   -- m odd
+    | [n, m] => let r := (montyParamsNew n (sec n m)).val
+      s!"{hx r.1} {hx r.2.1} {hx r.2.2.1} {wd r.2.2.2.1} {wd r.2.2.2.2} ;; {natToHex (B ^ n % m)} {natToHex (B ^ (2 * n) % m)} {natToHex (B ^ (3 * n) % m)} {natToHex (negInv64 m)} {natToHex (min (lz n m) 63)}"
+    | _ => bad),
+  op "c01.hook.div_by_2" "dhh" (fun      -- m odd, a < m
+    | [n, a, m] =>
+      let v := natToHex (if a % 2 = 0 then a / 2 else (a + m) / 2)
+      s!"{hx (divBy2 n (sec n a) (sec n m)).val} {hx (divBy2Boxed n (sec n a) (sec n m)).val} ;; {v} {v}"
     | _ => bad)
 ]
+
+/-- ops with a variable number of operands -/
+def varOps (op : String) (args : List String) : Option String :=
+  match op, args with
+  -- `c01.hook.lincomb n mlz m a1 b1 a2 b2 …`: m odd, operands < m, mlz ≤ leading zeros of m: `lincomb_monty_form` (hook, chosen
+  -- window) and the public `MontyForm::lincomb_vartime` when mlz is the parameter set's own
+  | "c01.hook.lincomb", n :: mlz :: m :: rest =>
+    match n.toNat?, mlz.toNat?, hexToNat? m, rest.mapM hexToNat? with
+    | some n, some mlz, some m, some vs =>
+      if vs.length % 2 = 1 then badArgs else
+      let r := B ^ n
+      let ni := Sec.ofNat (negInv64 m)
+      let pairs := (List.range (vs.length / 2)).map fun i => (vs.getD (2 * i) 0, vs.getD (2 * i + 1) 0)
+      let ab := pairs.map fun (a, b) => (sec n (a * r % m), sec n (b * r % m))
+      let res := (lincombMonty n pairs.length ab (sec n m) ni mlz).val
+      some s!"{hx (montyRetrieve n res (sec n m) ni).val} ;; {natToHex (pairs.foldl (fun acc (a, b) => acc + a * b) 0 % m)}"
+    | _, _, _, _ => badArgs
+  -- `c01.leak.multi_exp n ebits m b1 e1 b2 e2 …`: m odd, bases < m
+  | "c01.leak.multi_exp", n :: ebits :: m :: rest =>
+    match n.toNat?, ebits.toNat?, hexToNat? m, rest.mapM hexToNat? with
+    | some n, some ebits, some m, some vs =>
+      if vs.length % 2 = 1 then badArgs else
+      let r := B ^ n
+      let ni := Sec.ofNat (negInv64 m)
+      let pairs := (List.range (vs.length / 2)).map fun i => (vs.getD (2 * i) 0, vs.getD (2 * i + 1) 0)
+      let bes := pairs.map fun (b, e) => (sec n (b * r % m), sec n e)
+      let res := (multiExp n pairs.length bes ebits (sec n m) (sec n (r % m)) ni).val
+      some s!"{hx (montyRetrieve n res (sec n m) ni).val} ;; {natToHex (pairs.foldl (fun acc (b, e) => acc * powMod b (e % 2 ^ ebits) m % m) (1 % m))}"
+    | _, _, _, _ => badArgs
+  -- `c01.leak.random_mod n m w0 w1 …`: the RNG replays the words w_i; m non-zero; enough words for the draw to end
+  | "c01.leak.random_mod", n :: m :: rest =>
+    match n.toNat?, hexToNat? m, rest.mapM hexToNat? with
+    | some n, some m, some ws =>
+      let nl := (bitlen m + 63) / 64
+      let himod := m / B ^ (nl - 1) % B
+      let mask := (B - 1) / 2 ^ (64 - bitlen himod)
+      -- specification: the first candidate (high word re-drawn until ≤ the modulus' high word, then the low words in order) below m
+      let rec spec (fuel hi : Nat) (s : List Nat) : String :=
+        match fuel with
+        | 0 => "stream-exhausted"
+        | f + 1 =>
+          if hi > himod then spec f (s.headD 0 &&& mask) (s.drop 1)
+          else
+            let cand := hi * B ^ (nl - 1) + val (s.take (nl - 1))
+            if cand < m then natToHex cand else spec f ((s.drop (nl - 1)).headD 0 &&& mask) (s.drop nl)
+      some s!"{hx (randomMod n ws.length (sec n m) (ws.map Sec.ofNat)).val} ;; {spec ws.length (ws.headD 0 &&& mask) (ws.drop 1)}"
+    | _, _, _ => badArgs
+  | _, _ => none
 
 def parse (sig : String) (args : List String) : Option (List Nat) :=
   if sig.length ≠ args.length then none else
@@ -423,7 +503,7 @@ end D01
 /-- operations of property C01 (op names start with `c01.`) -/
 def dispatchC01 : Dispatch := fun op args =>
   match D01.ops.find? (fun e => e.1 == op) with
-  | none => none
+  | none => D01.varOps op args
   | some (_, sig, f) =>
     match D01.parse sig args with
     | some l => some (f l)
